@@ -484,6 +484,10 @@ func c11Run(t *testing.T, ps *premium.Setting, dir string, idx int, c c11Case) (
 
 // c11Result is what one worker process reports.
 type c11Result struct {
+	// Admissible: (type, chain, amount class, scid, configured minimum) of every
+	// enumerated case that must be admitted; Refused: those of them that were not.
+	Admissible map[string]bool
+	Refused    map[string]c11NoCancel
 	// NoCancel: refused requests whose requester got no usable cancel, per
 	// (reply class, type, set of conditions not holding): smallest example.
 	NoCancel    map[string]c11NoCancel
@@ -504,10 +508,74 @@ type c11NoCancel struct {
 	Detail string
 }
 
+var c11TupleDims = []int{c11dReqChain, c11dAmount, c11dScid, c11dMin}
+
+func c11Tuple(c c11Case) string {
+	p := []string{"type=swap_" + c.Typ}
+	for _, d := range c11TupleDims {
+		p = append(p, c11Names[d][c.D[d]])
+	}
+	return strings.Join(p, "|")
+}
+
+// c11Collapse names refusals of admissible requests by the coordinates that
+// matter: a coordinate is dropped from the keys when, for every refused tuple,
+// every enumerated admissible tuple that differs only in this coordinate is
+// refused as well.
+func c11Collapse(refused map[string]c11NoCancel, admissible map[string]bool) map[string]c11NoCancel {
+	cur := map[string]c11NoCancel{}
+	for k, v := range refused {
+		cur[k] = v
+	}
+	adm := map[string]bool{}
+	for k := range admissible {
+		adm[k] = true
+	}
+	for pos := 1; pos <= len(c11TupleDims); pos++ {
+		droppable := true
+		for r := range cur {
+			rp := strings.Split(r, "|")
+			for e := range adm {
+				ep := strings.Split(e, "|")
+				same := true
+				for i := range rp {
+					if i != pos && rp[i] != ep[i] {
+						same = false
+					}
+				}
+				if _, isRefused := cur[e]; same && !isRefused {
+					droppable = false
+				}
+			}
+		}
+		if !droppable {
+			continue
+		}
+		next := map[string]c11NoCancel{}
+		for r, v := range cur {
+			rp := strings.Split(r, "|")
+			rp[pos] = "*"
+			k := strings.Join(rp, "|")
+			if old, ok := next[k]; !ok || v.Devs < old.Devs {
+				next[k] = v
+			}
+		}
+		nadm := map[string]bool{}
+		for e := range adm {
+			ep := strings.Split(e, "|")
+			ep[pos] = "*"
+			nadm[strings.Join(ep, "|")] = true
+		}
+		cur, adm = next, nadm
+	}
+	return cur
+}
+
 func c11Amountish(f string) bool { return f == "below_minimum" || f == "exceeds_channel" }
 
 func c11Shard(t *testing.T, cases []c11Case, shard, n int) c11Result {
-	res := c11Result{Outcomes: map[string]int{}, Classes: map[string]int{}, VDevs: map[string]int{}, NoCancel: map[string]c11NoCancel{}}
+	res := c11Result{Outcomes: map[string]int{}, Classes: map[string]int{}, VDevs: map[string]int{}, NoCancel: map[string]c11NoCancel{},
+		Admissible: map[string]bool{}, Refused: map[string]c11NoCancel{}}
 	bubbleMode()
 	ps := premiumSetting(t, fmt.Sprintf("c11-%d", shard))
 	for ch, m := range c11Rates {
@@ -581,8 +649,10 @@ func c11Shard(t *testing.T, cases []c11Case, shard, n int) c11Result {
 			}
 			addV(c, key+":type="+typ, detail("an agreement was sent although: "+strings.Join(fails, ", ")))
 		case !obs.Agreement && len(fails) == 0:
-			addV(c, fmt.Sprintf("refused_although_all_conditions_hold:type=%s:chain=%s:amount=%s:scid=%s:reply=%s", typ, c11Names[c11dReqChain][c.D[c11dReqChain]], amt, c11Names[c11dScid][c.D[c11dScid]], obs.class()),
-				detail("every condition of the statement holds but no agreement was sent"))
+			tk := c11Tuple(c)
+			if old, ok := res.Refused[tk]; !ok || c.devs() < old.Devs {
+				res.Refused[tk] = c11NoCancel{Reply: obs.class(), Typ: typ, Devs: c.devs(), Detail: detail("every condition of the statement holds but no agreement was sent")}
+			}
 		case !obs.Agreement && !obs.Cancel:
 			nk := obs.class() + "|" + typ + "|" + strings.Join(fails, "+")
 			if old, ok := res.NoCancel[nk]; !ok || c.devs() < old.Devs {
@@ -596,6 +666,7 @@ func c11Shard(t *testing.T, cases []c11Case, shard, n int) c11Result {
 		// verdict classes
 		switch {
 		case len(fails) == 0:
+			res.Admissible[c11Tuple(c)] = true
 			res.Outcomes["expected_admission:"+typ+":"+c11Names[c11dReqChain][c.D[c11dReqChain]]]++
 			res.Outcomes["expected_admission:"+typ+":amount="+amt]++
 			res.Outcomes["expected_admission:"+typ+":scid="+k.Scid]++
@@ -714,15 +785,24 @@ func TestC11(t *testing.T) {
 			rep.Violations = append(rep.Violations, v)
 		}
 	}
-	// requester got no usable cancel: name the cause.  A case whose set of
-	// failing conditions contains a condition that ALONE already leads to the
-	// same reply is explained by that condition; only unexplained sets get a
-	// key of their own.
+	// requester got no usable cancel: name the cause.  Only the minimal sets
+	// of failing conditions get a key (a set that contains a smaller set with
+	// the same reply is explained by it).
 	noCancel := map[string]c11NoCancel{}
+	admissible := map[string]bool{}
+	refused := map[string]c11NoCancel{}
 	for _, r := range results {
 		for k, v := range r.NoCancel {
 			if old, ok := noCancel[k]; !ok || v.Devs < old.Devs {
 				noCancel[k] = v
+			}
+		}
+		for k := range r.Admissible {
+			admissible[k] = true
+		}
+		for k, v := range r.Refused {
+			if old, ok := refused[k]; !ok || v.Devs < old.Devs {
+				refused[k] = v
 			}
 		}
 	}
@@ -731,18 +811,31 @@ func TestC11(t *testing.T) {
 		nks = append(nks, k)
 	}
 	sort.Strings(nks)
+	subset := func(a, b []string) bool { // a strictly inside b
+		if len(a) >= len(b) {
+			return false
+		}
+		in := map[string]bool{}
+		for _, x := range b {
+			in[x] = true
+		}
+		for _, x := range a {
+			if !in[x] {
+				return false
+			}
+		}
+		return true
+	}
 	for _, k := range nks {
 		v := noCancel[k]
 		explained := false
-		if len(v.Fails) > 1 {
-			for _, f := range v.Fails {
-				if _, ok := noCancel[v.Reply+"|"+v.Typ+"|"+f]; ok {
-					explained = true
-				}
+		for _, k2 := range nks {
+			if w := noCancel[k2]; w.Reply == v.Reply && w.Typ == v.Typ && subset(w.Fails, v.Fails) {
+				explained = true
 			}
 		}
 		if explained {
-			rep.Outcomes["no_usable_cancel_explained_by_single_condition"]++
+			rep.Outcomes["no_usable_cancel_explained_by_smaller_condition_set"]++
 			continue
 		}
 		what := "no_cancel_sent"
@@ -750,6 +843,16 @@ func TestC11(t *testing.T) {
 			what = "cancel_without_swap_id"
 		}
 		rep.Violations = append(rep.Violations, mc.Violation{Property: "C11", Key: what + ":" + strings.Join(v.Fails, "+") + ":type=" + v.Typ, Detail: v.Detail})
+	}
+	for k, v := range c11Collapse(refused, admissible) {
+		p := strings.Split(k, "|")
+		key := "refused_although_all_conditions_hold:" + p[0]
+		for i, nme := range []string{"chain", "amount", "scid", "min"} {
+			if p[i+1] != "*" {
+				key += ":" + nme + "=" + strings.TrimPrefix(p[i+1], "min=")
+			}
+		}
+		rep.Violations = append(rep.Violations, mc.Violation{Property: "C11", Key: key + ":reply=" + v.Reply, Detail: v.Detail})
 	}
 	if rep.Transitions != len(cases) && len(rep.Internal) == 0 {
 		rep.Internal = append(rep.Internal, fmt.Sprintf("executed %d of %d cases", rep.Transitions, len(cases)))
@@ -760,6 +863,9 @@ func TestC11(t *testing.T) {
 		cl = append(cl, fmt.Sprintf("%s = %d", k, v))
 	}
 	sort.Strings(cl)
+	if len(cl) > 60 {
+		cl = append(cl[:60], fmt.Sprintf("... %d more", len(cl)-60))
+	}
 	alph := map[string]any{"swap_type": []string{"swap_in_request (42069)", "swap_out_request (42071)"}}
 	for d := 0; d < c11nDims; d++ {
 		alph[fmt.Sprintf("dim%02d", d)] = c11Names[d]
